@@ -230,12 +230,16 @@ def impl_negate(mods, c):
     node = ast.parse(c_text(c), mode="eval").body
     with common.quiet():
         r = mods["fixes"]._negate_condition(node)
-    return c_of_ast(r)
+    try:
+        term = c_of_ast(r)
+    except Exception:  # a shape outside the term language (e.g. a chain with other operators)
+        term = ("atom", 999)
+    return term, ast.unparse(r)
 
 
-def negate_property_fails(c, nc) -> str | None:
-    """not c  vs  negated c under all valuations of t0..t2 in {0,1,2} and atoms in {False,True}."""
-    a, b = compile("not " + c_text(c), "<c>", "eval"), compile(c_text(nc), "<n>", "eval")
+def negate_property_fails(c, nc_text) -> str | None:
+    """not c  vs  the real negated text under all valuations of t0..t2 in {0,1,2} and atoms in {False,True}."""
+    a, b = compile("not " + c_text(c), "<c>", "eval"), compile(nc_text, "<n>", "eval")
     for t in itertools.product([0, 1, 2], repeat=3):
         for at in itertools.product([False, True], repeat=3):
             env = {"t0": t[0], "t1": t[1], "t2": t[2], "a0": at[0], "a1": at[1], "a2": at[2]}
@@ -244,7 +248,10 @@ def negate_property_fails(c, nc) -> str | None:
                 va = eval(a, {}, env)
             except TypeError:
                 continue  # `in` on ints: outside the integer-comparison claim
-            vb = eval(b, {}, env2)
+            try:
+                vb = eval(b, {}, env2)
+            except TypeError:
+                continue
             if bool(va) != bool(vb):
                 return f"valuation {env}: not c = {va!r}, negated = {vb!r}"
     return None
@@ -375,19 +382,19 @@ def check(run: common.Run):
     ncases = negate_cases(run.tier, rnd)
     nitems = []
     for c in ncases:
-        nc = impl_negate(mods, c)
-        nitems.append((c, nc))
+        nc, nc_text = impl_negate(mods, c)
+        nitems.append((c, nc, nc_text))
         hist["negate:" + c[0]] += 1
         distinct.add("neg:" + c_text(c))
     for k in range(0, len(nitems), 800):
         shard = nitems[k:k + 800]
-        body = ";\n ".join(f"({c_coq(c)}, {c_coq(nc)})" for c, nc in shard)
+        body = ";\n ".join(f"({c_coq(c)}, {c_coq(nc)})" for c, nc, _ in shard)
         p = wd / f"negate_{k // 800}.v"
         p.write_text("From Coq Require Import List ZArith.\nImport ListNotations.\n"
                      "Require Import Pyrefact.Base Pyrefact.Ops Pyrefact.BoundModel Pyrefact.BoolRwModel.\n"
                      f"Definition cases : list (cond * cond) := [\n {body}\n].\n"
                      "Eval vm_compute in (bad_idx negate_case_ok cases).\n")
-        files.append(p); shards.append([("negate", c, nc) for c, nc in shard])
+        files.append(p); shards.append([("negate", c_text(c), t) for c, nc, t in shard])
 
     # ---- redundant masks: exhaustive for all masks up to length 5 (quick) / 7 (thorough)
     ritems = []
@@ -444,10 +451,10 @@ def check(run: common.Run):
         pf = property_fails(mods, source, rule)
         if pf:
             failures.append(("simplify_boolean_expressions", pf))
-    for c, nc in nitems[:2000]:
-        pr = negate_property_fails(c, nc)
+    for c, nc, nc_text in nitems[:2000]:
+        pr = negate_property_fails(c, nc_text)
         if pr:
-            failures.append(("_negate_condition", {"source": c_text(c), "output": c_text(nc), "problem": pr}))
+            failures.append(("_negate_condition", {"source": c_text(c), "output": nc_text, "problem": pr}))
     for (isand, mask, red, src) in ritems:
         if any(red):
             pr = redundant_property_fails(mods, src)
